@@ -478,7 +478,7 @@ SCENARIOS += ['dyndep_input_also_order_only']     # 44
 CHECKS['C11']['jobs'] += _hist_jobs('CHECK_C11', 2, 3, [44], extra_defs=['SINGLE_EDIT'], reach=('built', 'incremental-build'))
 CHECKS['C11']['jobs'][-1]['quick']['bounds'] = CHECKS['C11']['jobs'][-1]['quick']['bounds'].replace('any subset of sources edited', 'at most one source edited') + '; the input the dyndep file adds is already listed as an order-only input of the statement'
 CHECKS['C08']['jobs'].append(dict(name='longnames', harness='c08_buildlog.cc', units=_C08_UNITS, defines=['MODE_LONGNAMES'], reach=['reloaded', 'appended', 'recompacted', 'restatted'], limits=dict(max_steps=200000000, time=1500),
-    bounds='three statements whose output names are L, 3 and L+1 bytes long, L from 60 lengths between 1 and 65537 clustered around 256, 512, 1024, 2048, 4096; written by the real writer (one output recorded twice), reloaded, then {reload, append, recompact, restat} and reloaded again'))
+    bounds='three statements whose output names are L, 3 and L+1 bytes long, L from 65 lengths between 1 and 300000 clustered around 256, 512, 1024, 2048, 4096 and the 256 KiB line buffer of the reader; written by the real writer (one output recorded twice), reloaded, then {reload, append, recompact, restat} and reloaded again'))
 CHECKS['C09']['jobs'].append(dict(name='older_mtime', harness='c09_depslog.cc', units=_C09_UNITS, defines=['DAMAGE_TEAR', 'CONCRETE_SEQ', 'SEQ_BASE=3', 'VERIF_SEQS=1', 'VERIF_MAXREC=4'], reach=['tear-none', 'tear-some', 'recompact-2', 'recompact-3', 'done'],
     bounds='1 sequence x 1..4 records in which an output is recorded again with the same dependencies and an older mtime (and once more unchanged), another with mtime 0 (its command did not create it); torn at every byte offset, 4 choices of appended record, recompaction never / in session 2 / in session 3'))
 CHECKS['C20']['jobs'] += _real_runner(_mode_jobs('MODE_STATUS', [5], extra=['LONG_OUTPUT'], suffix='_long', reach=('success', 'output-shown'), bounds='one invocation from the empty tree, -j in {1,2,3}, each command prints or not; what a command prints is longer (4.2 KiB) than one read from its pipe, or short; written in two parts or all at once when it exits; every completion order'))
@@ -530,6 +530,53 @@ CHECKS['C06']['jobs'] += _mode_jobs('MODE_SCHED', [46], reach=('built', 'paralle
 CHECKS['C06']['level_text'] += ' One shape has more ready statements in a depth-2 pool than the pool admits, with -j below, at and above the depth and with a jobserver whose token count exceeds -j.'
 CHECKS['C11']['jobs'] += _hist_jobs('CHECK_C11', 2, 3, [47], reach=('built', 'incremental-build'))
 CHECKS['C11']['level_text'] += ' One shape lets the statement bound to a rebuilt dyndep file stay up to date while the producer of its discovered input is clean but waits for a dirty order-only input: that input must still be brought up to date, as with the information inlined.'
+
+SCENARIOS += ['wide2', 'restat_behind_alias']     # 48, 49
+_CODES = 'one invocation from the empty tree; any subset of commands fails, the first with an exit code from {1,2,3,126,127,128,129,131,137,139,143,255} (what shells and wrapper scripts hand on, without the interrupt code 130), later ones with 1..3, touched or not; -k in {1,2,0}; -j in {1,2,3}'
+CHECKS['C05']['jobs'] += _mode_jobs('MODE_FAIL', [48], extra=['WIDE_EXIT_CODES'], suffix='_codes', reach=('failed', 'retried', 'all-succeeded'), bounds=_CODES)
+CHECKS['C05']['jobs'] += _real_runner(_mode_jobs('MODE_FAIL', [48], extra=['WIDE_EXIT_CODES'], suffix='_codes', reach=('failed', 'retried', 'all-succeeded'), bounds=_CODES))
+CHECKS['C05']['level_text'] += ' Two jobs on a two-wide shape draw the exit code of each failing command from the codes shells and wrapper scripts hand on (126, 127, 128 + SIGHUP/SIGQUIT/SIGKILL/SIGSEGV/SIGTERM, 128, 255) instead of 1..3: each is an ordinary failure whose code ninja must return, after waiting for and recording what was running.'
+for _c, _r in (('C01', ('built', 'incremental-build')), ('C02', ('built', 'converged-checked')), ('C03', ('built', 'minimality-checked'))):
+    _js = _hist_jobs('CHECK_' + _c, 3, 3, [49], extra_defs=['SINGLE_EDIT', 'DOUBLE_EDIT', 'NO_DELETE'], reach=_r)
+    for _j in _js: _j['quick'] = dict(_j['quick'], bounds=_j['quick']['bounds'].replace('any subset of sources edited', 'at most one source edited (by 1 or 2: a restat generator reproduces its output for some edits)').replace(', at most one output/depfile deleted', ''))
+    CHECKS[_c]['jobs'] += _js
+CHECKS['C03']['level_text'] += ' One shape puts a phony alias between a restat output and its consumer and runs three invocations with target subsets, so that the consumer can be stale for an earlier reason when the restat pruning walk passes through the alias.'
+
+CHECKS['C06']['jobs'] += _real_runner(_mode_jobs('MODE_SCHED', [2], extra=['WITH_JOBSERVER', 'STAT_MAY_FAIL'], suffix='_tokens_statfail', reach=('tokens-success', 'tokens-failure', 'stat-failed'), bounds='jobserver FIFO holding 0..2 tokens; one stat() call after the first command start may fail with an I/O error (the bookkeeping of a finished command fails while another finished command has not been reaped yet)'))
+CHECKS['C06']['level_text'] += ' One *_procs job lets the bookkeeping of a finished command fail (stat() I/O error) while further commands have finished but are not yet reaped: every token read from the FIFO must still be written back.'
+
+CHECKS['C20']['jobs'] += _mode_jobs('MODE_STATUS', [2], extra=['STAT_MAY_FAIL'], suffix='_statfail', reach=('success', 'failure', 'output-shown', 'bookkeeping-failed'), bounds='one invocation from the empty tree, -j in {1,2,3}, each command prints or not, every completion order; one stat() call after the first command start may fail with an I/O error (the bookkeeping after a successful command fails and the build is abandoned)')
+CHECKS['C20']['level_text'] += ' One job lets the bookkeeping after a successful command fail (stat() I/O error on a restat / deps output): what that command printed must still be shown exactly once, and the counters stay ordered.'
+
+CHECKS['C07']['jobs'] += _mode_jobs('MODE_CRASH', [27], suffix='_crash', reach=('died', 'survived', 'recovered'), quick_defs=['VERIF_MAX_EVENTS=40'], bounds='statements with response files: build from the empty tree killed after persistence event 0..40, -j in {1,2}, every completion order; recovery build (no response file may be left behind); no-op build')
+CHECKS['C07']['level_text'] += ' One crash job uses statements with response files: after the recovery build no response file of a finished command is left (the order of response-file removal and log append in FinishCommand).'
+
+SCENARIOS += ['dyndep_restat_producer']     # 50
+CHECKS['C11']['jobs'] += _hist_jobs('CHECK_C11', 2, 3, [50], extra_defs=['CHECK_C03'], reach=('built', 'incremental-build', 'minimality-checked'))
+CHECKS['C11']['level_text'] += ' One shape produces the dyndep file with a restat rule that leaves it untouched and names it as an implicit input of the statement bound to it: the build must run exactly the commands the manifest with the information written in runs (the minimality reference of C03), not more.'
+
+SCENARIOS += ['cycle_by_dyndep_consumer_first', 'dyndep_consumer_first', 'restat_two_outputs']     # 51 .. 53
+CHECKS['C17']['jobs'] += _mode_jobs('MODE_CYCLE', [51], reach=('dyndep-cycle',), bounds='the same cycle closed by a dyndep file built during the build, with the statement bound to the dyndep file written in the manifest before the statement that produces the file; -j in {1,2}, every completion order')
+CHECKS['C11']['jobs'] += _hist_jobs('CHECK_C11', 2, 3, [52], extra_defs=['SINGLE_EDIT'], reach=('built', 'incremental-build'))
+CHECKS['C11']['jobs'][-1]['quick']['bounds'] = CHECKS['C11']['jobs'][-1]['quick']['bounds'].replace('any subset of sources edited', 'at most one source edited') + '; every statement is written in the manifest before the statements producing its inputs (the dyndep file included)'
+CHECKS['C11']['level_text'] += ' One shape writes every consumer before its producers in the manifest (the statement bound to a dyndep file before the statement producing that file).'
+CHECKS['C03']['jobs'] += _hist_jobs('CHECK_C03', 2, 3, [53], reach=('built', 'minimality-checked'))
+CHECKS['C01']['jobs'] += _hist_jobs('CHECK_C01', 2, 3, [53])
+CHECKS['C03']['level_text'] += ' One shape has a restat statement with two outputs of which an edit rewrites only one: exactly the consumers of the rewritten output run.'
+
+SCENARIOS += ['restat_deps_lazy_depfile']     # 54
+CHECKS['C02']['jobs'] += _hist_jobs('CHECK_C02', 2, 3, [54], extra_defs=['DELETE_LOGS'], reach=('built', 'converged-checked'))
+CHECKS['C02']['jobs'][-1]['quick']['bounds'] += '; before each later invocation .ninja_deps or .ninja_log may also be deleted (a build directory restored from a cache of outputs); the restat + deps=gcc command is a write-if-changed wrapper that writes no depfile when it leaves its output untouched'
+CHECKS['C02']['level_text'] += ' One shape combines restat with deps=gcc, a command that writes its depfile only when it rewrites its output, and deleted logs: the build after a successful one must still have nothing to do.'
+
+CHECKS['C10']['jobs'].append(dict(name='showincludes_roundtrip', harness='c10_clparser.cc', units=['clparser'] + _U, reach=['one-include', 'source-echoed'],
+    quick=dict(defines=['VERIF_NAMES=1', 'VERIF_LEN=3'], bounds='/showIncludes output with 1 reported file whose name is any 1..3 bytes (no CR/LF, not starting with a blank); source name echoed or not, LF/CRLF, 0..2 blanks of nesting indentation, another line of compiler output before / after / absent, English or localised prefix'),
+    thorough=dict(defines=['VERIF_NAMES=2', 'VERIF_LEN=4'], bounds='the same with 1..2 reported files of 1..4 bytes', limits=dict(time=3000, max_paths=3000000))))
+CHECKS['C10']['level_text'] += ' A kernel job runs the real CLParser::Parse on /showIncludes output built from symbolic file names and a symbolic layout: exactly the reported files (after the path normalisation ninja applies) must come back as dependencies, and only the notes and the echoed source name may be removed from the output.'
+
+SCENARIOS += ['shared_rspfile']     # 55
+CHECKS['C16']['jobs'] += _mode_jobs('MODE_SCHED', [55], extra=['WITH_FAILURES'], suffix='_rspfile_fail', reach=('built', 'rspfile-kept'), bounds='two statements that run one after the other name the same response file; any subset of commands fails, -k in {1,2}, -j in {1,2,3}: content checked at each command start, removed after success, kept (with the failed command\'s content) after failure')
+CHECKS['C16']['level_text'] += ' One shape lets two consecutive statements share one response-file path, with failures: the file of the failed command must still be there when ninja exits.'
 
 # ---- the thorough tier as it is actually run: every job of the quick tier at the same bounds, plus the thorough_only jobs (heavier shapes, built-then-perturbed
 # states, all-subsets edits), plus deeper bounds for the byte-level kernels (C08 C09 C13 C14 C15 C16 C19/json).  Three-invocation histories of *every* pipeline shape
